@@ -80,6 +80,11 @@ def machine_spec(draw, profile="general", tier="quick"):
     cpus = draw(st.sampled_from([1, 2, 4, 8, 16, 64]))
     ram = draw(st.sampled_from([0.5, 2.3, 8, 12.34, 30, 64, 100, 256, 100, 30, 64, 2e9, 1048576]))
     over = draw(st.booleans()) if profile != "oom" else True
+    if profile == "huge":
+        # very large pools without overcommit: one ulp of the free-RAM figure is ~1e-7 GB, an oversell of 1e-3 .. 10 GB is
+        # a relative 1e-12 .. 1e-8 and must still be refused
+        ram = draw(st.sampled_from([2e9, 1048576, 4e9, 1e7]))
+        over = False
     multi = draw(st.sampled_from([True, True, True, False])) if profile != "oom" else draw(st.booleans())
     if profile == "suspend":
         multi = True
@@ -141,10 +146,10 @@ def machine_spec(draw, profile="general", tier="quick"):
                         list(draw(cpu_spec if profile != "oom" else st.tuples(st.just("abs"), st.integers(1, 2)))),
                         list(draw(ram_spec(profile))), bad])
         # a deliberate inadmissible command in about one step of 12 (an episode ends at its first rejection)
-        if draw(st.integers(0, 11)) == 0:
-            if asg and draw(st.booleans()):
+        if draw(st.integers(0, 11 if profile != "huge" else 4)) == 0:
+            if asg and (profile == "huge" or draw(st.booleans())):
                 k = draw(st.integers(0, len(asg) - 1))
-                f = draw(st.sampled_from(ASG_FAULTS))
+                f = draw(st.sampled_from(ASG_FAULTS if profile != "huge" else ["ram_over", "ram_over", "cpu_over"]))
                 if f in ("cpu_over", "ram_over") and len(asg) >= 2:
                     # the request that does not fit is a later one of a batch for the same pool: each request fits on
                     # its own, only the sum oversells
